@@ -4,7 +4,7 @@
 FIX_COMMITS = [
     "02a02b1", "c32131a", "324bd77", "876de36", "e2492f3", "e522aa8", "02b45be", "2a6ea78", "7fbeea5", "b9a009d",
     "caa585b", "a0bae72", "49c1276", "a9a220e", "3b6199f", "d3ca28d", "e11250e", "3ac0c81", "b80de6a", "773425f",
-    "a468da5", "3e9bf5d", "abf25e6", "2859361", "650ac10", "2493939", "3e31ca3", "64111f6",
+    "a468da5", "3e9bf5d", "abf25e6", "2859361", "650ac10", "2493939", "3e31ca3", "64111f6", "3e81fe2", "0648151",
 ]
 
 NOT_APPLICABLE = {
@@ -96,14 +96,14 @@ PROPS = {
              "R-TYPE-TABLE, R-CONSTEXPR-TABLE, R-FIELDS-COVER(Types), R-NAME-PAIRING, R-COPY-PAIRING, R-CUSTOM-SECTIONS, R-IMPORT-ORDINAL, R-LOOP-SCRATCH, R-REFERS-EXH, R-TYPE-FIELD-FLOW.",
              "equality of decoded forms on every input.",
              "table extraction + field-provenance pairing"),
-    "C03": P([("nopanic", "nopanic", {}), ("nopanic", "untrusted_alloc", {})],
-             "sound over-approximation: every MIR panic edge on a resolved local call path from the four parse roots is enumerated; guard idioms discharge; the rest are reported",
-             "R-NOPANIC over the local call graph, R-PAYLOAD-EXH.",
-             "panics inside dependencies (trusted to honour Result contracts); aborts (OOM/stack); debug-only overflow checks are counted, not judged.",
+    "C03": P([("nopanic", "nopanic", {}), ("nopanic", "untrusted_alloc", {}), ("nopanic", "parse_recursion", {})],
+             "sound over-approximation: every MIR panic edge on a resolved local call path from the four parse roots is enumerated; guard idioms discharge; the rest are reported; allocations sized by the input and recursion without a depth guard (the two abort sources that are not panic edges) are enumerated on the same call graph",
+             "R-NOPANIC over the local call graph, R-PAYLOAD-EXH, R-UNTRUSTED-ALLOC, R-PARSE-RECURSION.",
+             "panics inside dependencies (trusted to honour Result contracts); whether the constant depth bound fits the caller's stack; debug-only overflow checks are counted, not judged.",
              "MIR panic-edge enumeration + call-graph reachability"),
-    "C04": P([("hashorder", "hashorder", {})],
-             "every hash-order source in the crate is enumerated by resolved receiver type and its consumer classified; no time/env/thread/random call is reachable from encode",
-             "R-HASHORDER + zero-expected nondeterminism sources on the encode call graph.",
+    "C04": P([("hashorder", "hashorder", {}), ("fields", "types_cover", {})],
+             "every hash-order source in the crate is enumerated by resolved receiver type and its consumer classified; no time/env/thread/random call is reachable from encode; the hand-written Hash and PartialEq of the type-dedup key agree field for field (a key whose hash covers more or less than its equality is found or missed depending on the per-process SipHash keys)",
+             "R-HASHORDER + zero-expected nondeterminism sources on the encode call graph; R-FIELDS-COVER(Types) hash/eq coherence.",
              "nothing of note for safe single-threaded Rust beyond the enumerated sources.",
              "resolved-callee enumeration + loop-body effect classification"),
     "C05": P([HASH, ENCW, SECORD, ("emit", "idempotent_encode", {}), CLEARS, CLEARCOH],
@@ -152,9 +152,9 @@ PROPS = {
              "R-TYPE-FIELD-FLOW, R-FIELDS-COVER(Types), R-TYPE-DEDUP, R-HASHORDER, R-SWAP, R-TYPE-TABLE.",
              "index stability with explicit rec groups (iso-recursive identity).",
              "who-may-write + guarded-insert analysis"),
-    "C14": P([("mutators", "locals_owner", {}), TT_WE],
+    "C14": P([("mutators", "locals_owner", {}), TT_WE, IDSPACE],
              "the local-adding machinery has one writer with the right shape and every entry point reaches it with the parameter count of the same function",
-             "R-LOCALS (owner, shape on every path, caller arguments), R-TYPE-TABLE.",
+             "R-LOCALS (owner, shape on every path, caller arguments), R-TYPE-TABLE, R-IDSPACE (the function id an entry point hands to the owner is not re-derived from a cursor position).",
              "nothing beyond the trusted base for the index formula; the encoded declaration relies on C01's tables.",
              "who-may-write + path enumeration"),
     "C15": P([CLEARCOH, LOCADDR, FINISH, MODEHELP, MODESET, FULLIT, MODEF, ("modes", "has_instr_cover", {}), ("modes", "emit_order", {}), SIB, INJAT],
@@ -207,7 +207,7 @@ PROPS = {
              "R-SKIP-LOOP, R-COUPLED-STATE, R-ITER-INDEX.",
              "exactly-once visiting over all skip lists.",
              "loop-exit condition analysis + path enumeration + MIR index sites"),
-    "C26": P([("iters", "skip_loop", {}), LOCADDR, COUPCNT, SKIPPASS, ("iters", "comp_next_fallthrough", {}), ("component", "section_pairing", {}), ITCFG, FULLIT, SIB, ("iters", "coupled_state", {}), ("mutators", "who_may_call", {})],
+    "C26": P([("iters", "skip_loop", {}), LOCADDR, IDSPACE, COUPCNT, SKIPPASS, ("iters", "comp_next_fallthrough", {}), ("component", "section_pairing", {}), ITCFG, FULLIT, SIB, ("iters", "coupled_state", {}), ("mutators", "who_may_call", {})],
              "ModuleIterator and ComponentIterator perform the same operation on the same LocalFunction API for every trait method; module cursor changes rebuild the module sub-iterator from metadata and skip list",
              "R-SIBLING(instrumenter), R-COUPLED-STATE, R-WHOMAYCALL.",
              "visit-sequence equality over all components and skip maps.",
